@@ -120,6 +120,7 @@ def avoid_hidden_short_adj(opts, pieces):
     """A short name declared under hide() is unknown to the tokenizer (known finding C02-hidden-short): do not write
     such an argument as `-Jvalue`, which bpaf reads as a plain word, not as a named occurrence."""
     hidden = set()
+    drop = []
     for x in gen.walk(opts):
         if x["k"] == "hide":
             hidden.update(id(y) for y in gen.walk(x["p"]))
@@ -133,4 +134,8 @@ def avoid_hidden_short_adj(opts, pieces):
                 items = [b"-" + nm, p.chunk.value]
             if items is not None:
                 p.items = items
-    return pieces
+            else:
+                # no spelling of this occurrence is read as a named item (multibyte short name, no long name, value
+                # must be attached): leave the occurrence out
+                drop.append(p)
+    return [p for p in pieces if not any(p is d for d in drop)]
